@@ -258,8 +258,8 @@ class Solver:
             return _Callable(self._decode)
         if name == 'update_channel_probs':
             return _Callable(self._update)
-        if name == 'osdw_decoding':
-            self.cb('read', self, None)
+        if name in ('osdw_decoding', 'osd0_decoding', 'decoding', 'bp_decoding'):
+            self.cb('read', self, name)
             return self._result()
         return TOP
 
@@ -600,6 +600,11 @@ def _judge(name, cfg, site, v, log, n_init, kw) -> List[Fact]:
         ok, why = True, ''
         fresh = False
         decoded = False
+        buffers = [e[2] for e in log[n_init:] if e[1] is s and e[0] == 'read']
+        if buffers:
+            ok, why = False, (f'result taken from the attribute(s) {sorted(set(buffers))} instead of the value returned by '
+                              f'decode(): ldpc refreshes these buffers only when the post-processing runs, so after a '
+                              f'converged BP run they still hold the output of an earlier call')
         for ev in seq:
             if ev == 'update':
                 fresh = True
@@ -611,11 +616,11 @@ def _judge(name, cfg, site, v, log, n_init, kw) -> List[Fact]:
                 decoded = True
             elif ev == 'read':
                 if not decoded:
-                    ok, why = False, 'osdw_decoding read before decode() in this call: result of a previous call'
+                    ok, why = False, 'result buffer read before decode() in this call: result of a previous call'
         if 'decode' not in seq:
             continue
         out.append(Fact('typestate', name, cfg, site,
-                        f'{name} [{cfg}]: {s!r}: reset priors -> decode -> read result', ok,
+                        f'{name} [{cfg}]: {s!r}: reset priors -> decode -> use the returned value', ok,
                         why + f' (sequence {seq})', key=f'{name}|{cfg}|typestate[{s.H!r}]', facts=seq))
     # output
     ok = isinstance(v, Full) and not v.bad
